@@ -224,3 +224,100 @@ Proof.
   destruct ((bisd =? isd) && (basn =? asn)) eqn:Z1; auto.
   apply andb_true_iff in Z1 as [Z1 Z2]. apply N.eqb_eq in Z1, Z2. subst. now elim Hne.
 Qed.
+
+(** ---------------------------------------------------------------- over the signer's lifetime *)
+
+(** what cppki.TRC.Validate guarantees for every decoded TRC (trc.go: each
+    certificate of the TRC covers the TRC validity) *)
+Definition trcs_cover (d : db) : Prop :=
+  forall t r, In t (d_trcs d) -> In r (t_certs t) -> (c_nb r <= t_nb t /\ t_na t <= c_na r)%Z.
+
+Lemma latest_in_trcs ts isd l : latest_trc ts isd = Some l -> In l ts /\ t_isd l = isd.
+Proof.
+  induction ts as [|t r IH]; cbn [latest_trc]; try discriminate.
+  destruct (t_isd t =? isd) eqn:E.
+  - destruct (latest_trc r isd) as [u|].
+    + destruct (id_lt (t_base t) (t_serial t) (t_base u) (t_serial u)); intros H; inversion H; subst.
+      * destruct (IH eq_refl). split; [now right | assumption].
+      * split; [now left | now apply N.eqb_eq].
+    + intros H; inversion H; subst. split; [now left | now apply N.eqb_eq].
+  - intros H. destruct (IH H). split; [now right | assumption].
+Qed.
+
+Lemma find_trc_In ts isd b sr g : find_trc ts isd b sr = Some g -> In g ts.
+Proof. unfold find_trc. intros H. now apply find_some in H. Qed.
+
+(** a chain that verifies at [now] still verifies at any later time up to the
+    expiry of the AS certificate and of the TRC *)
+Lemma verify_later ch t now now' :
+  verify_chain_trc ch (Some t) now = true ->
+  (forall r, In r (t_certs t) -> (t_na t <= c_na r)%Z) ->
+  (now <= now')%Z -> (now' <= as_na ch)%Z -> (now' <= t_na t)%Z ->
+  verify_chain_trc ch (Some t) now' = true.
+Proof.
+  intros V Hcov Hle Ha Ht. apply verify_chain_trc_iff in V as (a & c & r & -> & A).
+  apply verify_chain_trc_iff. exists a, c, r. split; auto. destruct A. cbn [as_na] in Ha.
+  specialize (Hcov r acc_root_in). constructor; auto; lia.
+Qed.
+
+Lemma verifier_ok_later d isd asn eku now ks l s now' :
+  isd <> 0 -> asn <> 0 -> trcs_cover d ->
+  signer_gen d isd asn eku now ks = Some l -> In s l ->
+  (now <= now')%Z -> sign_ok s now' = true ->
+  verifier_ok d isd asn s isd asn now' = true.
+Proof.
+  intros Hi Ha Hcov G Hin Hle Hsg. apply sign_ok_iff in Hsg.
+  destruct (signer_gen_In _ _ _ _ _ _ _ _ G Hin) as (trcs & k & A & Hk & B).
+  destruct (best_for_key_got _ _ _ _ _ _ _ _ B) as (Sk & Key & Skid & Hc & t & rest & -> & Tid & Cases).
+  destruct (candidates_In _ _ _ _ _ _ _ Hc) as (Hdb & Hm & Hkey).
+  assert (Hsk : s_skid s = k_skid k).
+  { rewrite Skid. now apply (chain_matches_skid _ _ Hm). }
+  assert (A' := A). apply active_trcs_cases in A' as (t' & L & C & Cs).
+  assert (Et : t' = t) by (destruct Cs as [[_ E]|[_ (g' & _ & E)]]; now inversion E). subst t'.
+  destruct (latest_in_trcs _ _ _ L) as [Lin _].
+  apply contains_iff in C.
+  (* the TRCs that are active at now' still verify the chain *)
+  assert (Act : exists trcs', active_trcs (d_trcs d) isd now' = Some trcs'
+            /\ exists u, In u trcs' /\ verify_chain_trc (s_chain s) (Some u) now' = true).
+  { destruct Cases as [(G0 & V & _ & Ex)|(g & -> & G1 & _ & V & _ & Ex)].
+    - assert (V' : verify_chain_trc (s_chain s) (Some t) now' = true).
+      { apply (verify_later _ _ now); auto; try lia. intros r Hr. now apply (Hcov t r Lin Hr). }
+      assert (Ct : trc_contains t now' = true) by (apply contains_iff; lia).
+      unfold active_trcs. rewrite L, Ct. cbn [negb].
+      destruct (in_grace t now') eqn:G'; cbn [negb].
+      + assert (Gn : in_grace t now = true).
+        { unfold in_grace in *. apply andb_true_iff in G' as [Bs Cg]. rewrite Bs. cbn [andb].
+          apply contains_iff in Cg. apply contains_iff. lia. }
+        destruct Cs as [[Gr _]|[_ (g' & F & _)]]; [congruence|].
+        rewrite F. eexists. split; [reflexivity|]. exists t. split; [now left | exact V'].
+      + eexists. split; [reflexivity|]. exists t. split; [now left | exact V'].
+    - destruct Cs as [[_ E]|[Gr (g' & F & E)]]; inversion E; subst g'.
+      assert (Gin : In g (d_trcs d)) by (eapply find_trc_In; eauto).
+      assert (V' : verify_chain_trc (s_chain s) (Some g) now' = true).
+      { apply (verify_later _ _ now); auto; try lia. intros r Hr. now apply (Hcov g r Gin Hr). }
+      assert (Ct : trc_contains t now' = true) by (apply contains_iff; lia).
+      assert (G' : in_grace t now' = true).
+      { unfold in_grace in *. apply andb_true_iff in Gr as [Bs Cg]. rewrite Bs. cbn [andb].
+        apply contains_iff in Cg. apply contains_iff. lia. }
+      unfold active_trcs. rewrite L, Ct, G', F. cbn [negb].
+      eexists. split; [reflexivity|]. exists g. split; [right; now left | exact V']. }
+  destruct Act as (trcs' & A2 & u & Hu & Vu).
+  unfold verifier_ok.
+  rewrite Hsk. apply N.eqb_neq in Sk. rewrite Sk. cbn [negb andb].
+  rewrite !N.eqb_refl. cbn [andb orb]. rewrite orb_true_r. cbn [andb].
+  apply N.eqb_neq in Hi, Ha. rewrite Hi, Ha. cbn [orb negb andb].
+  rewrite L, Tid. unfold trc_id. rewrite N.eqb_refl.
+  assert (Sl : (t_serial t <=? t_serial t) = true) by (apply N.leb_le; lia). rewrite Sl. cbn [andb].
+  unfold get_chains. cbn [q_isd q_as]. rewrite Hi, Ha. cbn [orb andb]. rewrite A2.
+  set (q := mkq isd asn (k_skid k) false 0 0).
+  assert (Hq : In (s_chain s) (db_chains d q)).
+  { apply filter_In. split; auto. subst q. destruct (s_chain s) as [|a r]; [discriminate|].
+    cbn [chain_matches q_isd q_as q_skid q_has_val] in *.
+    apply andb_true_iff in Hm as [Hm _]. apply andb_true_iff in Hm as [Hia Hs].
+    rewrite Hia, Hs. reflexivity. }
+  assert (Hv : In (s_chain s) (filter_verifiable (db_chains d q) trcs' now')).
+  { apply filter_verifiable_In. split; auto. exists u. auto. }
+  destruct (filter_verifiable (db_chains d q) trcs' now') as [|x v] eqn:Fv; [destruct Hv|].
+  cbn [is_nil negb fst]. apply existsb_exists. exists (s_chain s). split; auto.
+  rewrite Hkey, Key. apply N.eqb_refl.
+Qed.
